@@ -231,11 +231,8 @@ def model_expr(case):
         return '(OL [%s])' % model_expr_phase(case, case['native'])
     return '(OL [%s; %s])' % (model_expr_phase(case, [case['native'][i] for i in case['pre']]), model_expr_phase(case, case['native']))
 
-def model_expr_phase(case, natives):
-    num = numbered(case)
-    facts = fact_preds(num)
-    p_full = ast_io.g_program(num)
-    p_rest = ast_io.g_program(progs.number_anons(rest_clauses(case)))
+def g_natives(case, natives):
+    facts = fact_preds(numbered(case))
     nats = []
     for spec in natives:
         rows = [row_terms(r) for r in facts.get((spec['name'], spec['arity']), [])]
@@ -244,16 +241,24 @@ def model_expr_phase(case, natives):
         nats.append('{| n_name := %s; n_style := %s; n_rows := %s; n_vals := %s; n_raise := %s |}' % (
             g_str(spec['name']), style, g_list([g_frow(ts, nv) for ts, nv in rows]), g_list([g_bool(v) for v in vals]),
             'None' if spec.get('raise') is None else '(Some %s)' % g_nat(spec['raise'])))
+    return g_list(nats)
+
+def g_dyn(dynl):
     dyn = {}
-    for name, ts in case['dyn']:
+    for name, ts in dynl:
         nv = len(terms.term_vars(['f', 'x', ts]))
         dyn.setdefault((name, len(ts)), []).append(g_frow(ts, nv))
-    gd = g_list(['(%s, %s, %s)' % (g_str(k[0]), g_nat(k[1]), g_list(v)) for k, v in dyn.items()])
+    return g_list(['(%s, %s, %s)' % (g_str(k[0]), g_nat(k[1]), g_list(v)) for k, v in dyn.items()])
+
+def model_expr_phase(case, natives):
+    num = numbered(case)
+    p_full = ast_io.g_program(num)
+    p_rest = ast_io.g_program(progs.number_anons(rest_clauses(case)))
     qs = []
     for q in case['queries']:
         args, nq = semcheck.query_terms(q)
         qs.append('(%s, %s, %s)' % (g_str(q[0]), g_list([g_term(a) for a in args]), g_nat(nq)))
-    return '(run_native %d %s %s %s %s %s %d)' % (DEPTH, p_rest, p_full, g_list(nats), gd, g_list(qs), LIMIT)
+    return '(run_native %d %s %s %s %s %s %d)' % (DEPTH, p_rest, p_full, g_natives(case, natives), g_dyn(case['dyn']), g_list(qs), LIMIT)
 
 def view(m):
     """m[2]: how the model's enumeration ended: ['none'] | ['depth'] | ['unify'] | ['goal'] | ['code'] | ['py', i] (the object raised by Python predicate i)"""
